@@ -496,7 +496,12 @@ type cmdResult struct {
 }
 
 func (l *live) sendActive(c, k int, key string, cmd consts.JT808CommandType, body []byte, tmo time.Duration) cmdResult {
-	am := service.NewActiveMessage(key, cmd, body, tmo)
+	return l.sendActiveAM(c, k, service.NewActiveMessage(key, cmd, body, tmo))
+}
+
+// sendActiveAM: the call with a request object the caller supplies (it may have been used for an earlier call)
+func (l *live) sendActiveAM(c, k int, am *service.ActiveMessage) cmdResult {
+	key, cmd, body, tmo := am.Key, am.Command, am.Body, am.OverTimeDuration
 	l.cmds.Store(am, k)
 	slack := int(l.slackMs.Load())
 	if slack == 0 {
